@@ -112,5 +112,7 @@ def write(design, r, style=True):
     w("(%s %s%s(%s %s (%s %s)))%s" % (kw("design"), nd(design["design_name"]), sp(), kw("cellRef"), design["_top_ref"][0],
                                       kw("libraryRef"), design["_top_ref"][1], sp()))
     w(comment())
+    if r.random() < 0.5:
+        w("(%s \"after the design\")%s" % (kw("comment"), sp()))        # the file goes on after the design construct
     w(")\n")
     return "".join(out)
